@@ -175,7 +175,8 @@ def gen_planted(rng, n):
                 if any(plant[abs(x)] == (x > 0) for x in c):
                     return c
         clauses = [cl(3) for _ in range(int(nv * 4.06))] + [cl(2) for _ in range(nv // 4)]
-        out.append({"clauses": clauses, "assumptions": [], "limit": 1, "max_conflicts": 100000, "max_restarts": 10000,
+        # budget: enough conflicts to pass the reduce_db threshold several times, small enough that the call is over in seconds
+        out.append({"clauses": clauses, "assumptions": [], "limit": 1, "max_conflicts": 15000, "max_restarts": 10000,
                     "luby_factor": 100, "sparse": True, "planted": [v if plant[v] else -v for v in range(1, nv + 1)]})
     return out
 
